@@ -293,3 +293,8 @@ def run_case(case):
               "neg_success": 1 if (case["kind"] == "neg" and outcome == "result") else 0,
               "kind:" + case["kind"]: 1}
     return C.package(world, case, violations, sig, True, probes)
+
+
+def evidence_extra(tier):
+    return {"systematic_cases": len(_space(tier)), "seeded_cases": N_NEG[tier],
+            "systematic_part": "every split point of every frame length of the tier x 3 timings x keep-alive; consecutive fragmented pairs"}
